@@ -67,6 +67,10 @@ use swimos_utilities::encoding::BytesStr;
 use swimos_utilities::future::{immediate_or_join, StopAfterError};
 use swimos_utilities::trigger::{self, promise};
 
+#[cfg(feature = "verif-hooks")]
+pub mod verif_links {
+    pub use super::links::{Links, TriggerUnlink};
+}
 mod external_links;
 mod init;
 mod links;
